@@ -217,6 +217,18 @@ def class_mutables_via_self(repo):
                             muts.append((fi, par))
                         elif isinstance(par, ast.Attribute) and par.value is n and par.attr in MUTATORS and isinstance(getattr(par, '_parent', None), ast.Call) and par._parent.func is par:
                             muts.append((fi, par._parent))
+                        elif isinstance(par, ast.Assign) and par.value is n and len(par.targets) == 1 and isinstance(par.targets[0], ast.Name):
+                            # <local> = self.<attr>: a local name for the same object (bound once in this function)
+                            al = par.targets[0].id
+                            stores = [m for m in ast.walk(fi.node) if isinstance(m, ast.Name) and m.id == al and isinstance(m.ctx, (ast.Store, ast.Del))]
+                            if len(stores) == 1 and al not in [a.arg for a in ast.walk(fi.node.args) if isinstance(a, ast.arg)]:
+                                for m in ast.walk(fi.node):
+                                    if isinstance(m, ast.Name) and m.id == al and isinstance(m.ctx, ast.Load):
+                                        mp = getattr(m, '_parent', None)
+                                        if isinstance(mp, ast.Subscript) and mp.value is m and isinstance(mp.ctx, (ast.Store, ast.Del)):
+                                            muts.append((fi, mp))
+                                        elif isinstance(mp, ast.Attribute) and mp.value is m and mp.attr in MUTATORS and isinstance(getattr(mp, '_parent', None), ast.Call) and mp._parent.func is mp:
+                                            muts.append((fi, mp._parent))
             if muts and not assigned:
                 out.append((cname, attr, muts))
     return out
